@@ -17,16 +17,16 @@ ALL_INVS = ['Deterministic', 'Terminates', 'Typed', 'ConservationStep', 'Conserv
 # exhaustive-model bounds per property: quick / thorough
 ARG_MC = {
     'C01': dict(decls=[1, 2, 9], policy=['opts', 'clusters'], popts=['<<>>', '<<"PassDoubleDash">>'], handlers=['none'],
-                maxlen=(2, 3), thorough_decls=[1, 2, 8, 9, 6]),
-    'C03': dict(decls=[4, 5], policy=['opts', 'cmds', 'odd', 'unknown'], popts=PASS3, handlers=['none'], maxlen=(3, 4), thorough_decls=[4, 5]),
+                maxlen=(2, 3), thorough_decls=[2, 8, 9, 6]),
+    'C03': dict(decls=[4, 5], policy=['opts', 'cmds', 'odd', 'unknown'], popts=PASS3, handlers=['none'], maxlen=(3, 4), thorough_decls=[5]),
     'C04': dict(decls=[1, 3, 8], policy=['opts', 'cmds', 'odd', 'unknown', 'help', 'fmt'], popts=DEFAULTISH + ['<<"HelpFlag", "PrintErrors">>'],
-                handlers=['none', 'error'], maxlen=(2, 3), thorough_decls=[3, 5, 7, 9]),
-    'C06': dict(decls=[7], policy=['opts', 'cmds', 'clusters'], popts=['<<>>', '<<"PassDoubleDash">>'], handlers=['none'], maxlen=(3, 4), thorough_decls=[7, 3]),
+                handlers=['none', 'error'], maxlen=(2, 3), thorough_decls=[3, 5, 9]),
+    'C06': dict(decls=[7], policy=['opts', 'cmds', 'clusters'], popts=['<<>>', '<<"PassDoubleDash">>'], handlers=['none'], maxlen=(3, 4), thorough_decls=[7]),
     'C07': dict(decls=[2, 3, 10], policy=['opts', 'cmds', 'unknown', 'near'], popts=['<<>>', '<<"IgnoreUnknown">>', '<<"IgnoreUnknown", "PassAfterNonOption">>'],
-                handlers=['none', 'identity', 'dropnext', 'dropall', 'inject', 'error'], maxlen=(2, 3), thorough_decls=[2, 3, 10]),
-    'C08': dict(decls=[13, 10], policy=['opts', 'cmds', 'odd'], popts=['<<>>', '<<"PassDoubleDash">>'], handlers=['none'], maxlen=(3, 4), thorough_decls=[5, 13]),
+                handlers=['none', 'identity', 'dropnext', 'dropall', 'inject', 'error'], maxlen=(2, 3), thorough_decls=[2]),
+    'C08': dict(decls=[13, 10], policy=['opts', 'cmds', 'odd'], popts=['<<>>', '<<"PassDoubleDash">>'], handlers=['none'], maxlen=(3, 5), thorough_decls=[5]),
     'C09': dict(decls=[3, 5, 7], policy=['opts', 'cmds', 'unknown', 'help'], popts=['<<>>', '<<"HelpFlag">>', '<<"HelpFlag", "PrintErrors", "PassDoubleDash">>'],
-                handlers=['none'], maxlen=(3, 4), thorough_decls=[5, 7]),
+                handlers=['none'], maxlen=(3, 5), thorough_decls=[5]),
     'C10': dict(decls=[4, 5, 7], policy=['opts', 'cmds', 'odd'], popts=PASS3, handlers=['none'], maxlen=(3, 4), thorough_decls=[4, 5]),
 }
 # a second exhaustive model for the properties that speak about the active chain: the judged parse is the SECOND ParseArgs of one
